@@ -236,5 +236,84 @@ func scenC08(w *vsim.World, spec *vsim.Spec) {
 	w.SetEndState(fmt.Sprintf("%d files %d dirs %d puts", len(mf), len(md), r.k.nput))
 }
 
-func scenC09(w *vsim.World, spec *vsim.Spec) {}
-func scenC13(w *vsim.World, spec *vsim.Spec) {}
+// ---- C09: saved manifests under Keep write failures ----------------------------------
+
+func scenC09(w *vsim.World, spec *vsim.Spec) {
+	ns := mkNamespace(w.Choose("odd-names", 2) == 1, "")
+	r := setupCollfs(w, ns)
+	if r == nil {
+		return
+	}
+	k := r.k
+	switch w.Choose("failure-mode", 5) {
+	case 1:
+		k.failKth = 1 + w.Choose("kth", 12)
+	case 2:
+		k.failRate = []int{100, 300, 600}[w.Choose("rate", 3)]
+	case 3:
+		k.failBG, k.failRate = true, []int{300, 700, 1000}[w.Choose("rate", 3)]
+	case 4:
+		k.failSave, k.failRate = true, []int{300, 700, 1000}[w.Choose("rate", 3)]
+	}
+	w.HoldKinds(map[string]int{"keep-put": []int{0, 300, 700, 950}[w.Choose("hold-puts", 4)]})
+	mean := 25
+	if spec.Tier == "thorough" {
+		mean = []int{25, 80, 200}[w.Choose("mean", 3)]
+	}
+	ops := genOps(w, "w", ns, mean, r.blk, true)
+	// make sure every run ends with saves: one while faults may still flow, one after they stopped
+	x := &executor{w: w, fs: r.fs, m: r.m, tag: "w", blk: r.blk}
+	k.inSave = func() bool { return x.inSave }
+	x.onSave = func(txt string, err error, how string) {
+		if err != nil {
+			w.Probe("save-failed")
+			if k.nfailed == 0 {
+				w.Violation("save/failed-without-any-write-failure", "%s returned %v although no Keep write has failed", how, err)
+				return
+			}
+			r.checkLive("after failed " + how) // buffered data stays intact and readable
+			return
+		}
+		if how == "sync" {
+			if len(r.api.manifests) == 0 {
+				w.Violation("save/sync-sent-nothing", "Sync returned nil without updating the collection")
+				return
+			}
+			txt = r.api.manifests[len(r.api.manifests)-1]
+		}
+		r.checkSave(txt, how)
+	}
+	done := false
+	w.Spawn("w", func() {
+		x.run(ops)
+		if w.Failed() {
+			return
+		}
+		x.apply(fsop{kind: opMarshal, idx: len(ops)})
+		k.faultsOff = true
+		x.inSave = true
+		txt, err := r.fs.MarshalManifest(".")
+		x.inSave = false
+		if err != nil {
+			w.Violation("save/no-recovery-after-faults-stop", "MarshalManifest still fails after Keep write failures stopped: %v", err)
+			return
+		}
+		r.checkSave(txt, "final save after faults stopped")
+		if !w.Failed() {
+			r.checkLive("end of run")
+		}
+		done = true
+	})
+	w.Run(nil)
+	if w.Failed() || w.Truncated() {
+		return
+	}
+	if !done || !w.AllDone() {
+		w.Violation("fs/deadlock", "%s", strings.Join(w.Blocked(), "; "))
+		return
+	}
+	mf, md := map[string][]byte{}, map[string]bool{}
+	r.m.flatten(r.m.root, "", mf, md)
+	w.SetEndState(fmt.Sprintf("%d files %d dirs %d puts %d failed", len(mf), len(md), k.nput, k.nfailed))
+}
+
